@@ -4,6 +4,7 @@ import (
 	"fmt"
 	"go/types"
 	"net/url"
+	"path/filepath"
 	"strconv"
 	"strings"
 
@@ -372,6 +373,21 @@ func (m *Machine) nativeStringFn(s *State, f *Frame, x *ssa.Call, name string, a
 		}
 		id := s.alloc(arr)
 		f.env[x] = SliceV{obj: id, len: len(parts), cap: len(parts)}
+		return true
+	case "path/filepath.Join":
+		sl, ok := args[0].(SliceV)
+		if !ok {
+			return false
+		}
+		var parts []string
+		for i := 0; i < sl.len; i++ {
+			g, ok := m.toGo(s, m.sliceElem(s, sl, i), types.Typ[types.String])
+			if !ok {
+				return false
+			}
+			parts = append(parts, g.(string))
+		}
+		f.env[x] = m.mkStr(filepath.Join(parts...))
 		return true
 	case "strings.Count":
 		a, ok1 := str(0)
